@@ -3,7 +3,7 @@ From Coq Require Import List Arith ZArith Bool.
 From MM Require Import lib.ListSet lib.Values model.Heap model.Elig model.SearchParams model.SearchDefs model.Search
   gen.Gen_Search proofs.GroupSpecs proofs.SearchBridge proofs.ExhaustiveProofs proofs.GreedyProofs proofs.ConstraintProofs.
 Import ListNotations.
-From MM Require Import gen.Gen_HeapDict gen.Gen_Exhaustive proofs.ExhaustiveBridge.
+From MM Require Import gen.Gen_HeapDict gen.Gen_Exhaustive gen.Gen_Greedy proofs.ExhaustiveBridge proofs.GreedyBridge.
 
 (* exhaustive search: sizes inside the user ranges, geo-count ratio admitted by the tolerance,
    volume ratio, treatment share and required budget inside their ranges (each exactly as the code
@@ -97,3 +97,18 @@ Proof.
   intros. eapply exhaustive_constraints. subst T C. rewrite <- surjective_pairing. eapply gen_exhaustive_in; eassumption.
 Qed.
 Print Assumptions C02_translated_exhaustive_search_constraints.
+
+(* stated on the Gallina regenerated on this run from _greedy_search itself (gen/Gen_Greedy.v) *)
+Theorem C02_translated_greedy_search_constraints :
+  forall (V K : Type) (O : vops V) (ltk : K -> K -> bool) (es : list elig) (par : spar V)
+         (shareS : set -> V) (bud : set -> set -> V) (gkey : set -> set -> K) (zero_key : K) (fuel : nat) r d,
+    gen_greedy_search O ltk (assignments_of es) par shareS bud gkey zero_key fuel = Some r -> In d (dd_get r 0%Z) ->
+    let T := fst (des_groups d) in let C := snd (des_groups d) in
+    tsize_ok O (gpar (assignments_of es) par) T = true /\ csize_ok O (gpar (assignments_of es) par) C = true /\
+    volume_ok O par shareS T C = true /\ georatio_ok O par T C = true /\
+    share_ok_rel O (assignments_of es) par shareS T = true /\ budget_out O par (bud T C) = false.
+Proof.
+  intros until d. intros Hr Hd T C. destruct (gen_greedy_in O ltk _ par shareS bud gkey zero_key fuel r d Hr Hd) as [ds [Hg Hin]].
+  eapply greedy_constraints; [exact Hg|]. subst T C. rewrite <- surjective_pairing. exact Hin.
+Qed.
+Print Assumptions C02_translated_greedy_search_constraints.
